@@ -442,6 +442,11 @@ def c12_jobs(tier):
     jobs.append(J("ast", "ZZ_C12_binary_int"))
     for k in ([0, 1, 2, 3] if tier == "quick" else [0, 1, 2, 3, 8, 9]):
         jobs.append(J("ast", "ZZ_C12_binary_str", k=k))
+    # long literals: a concrete run of digits ("1010...", or zeros) in front of k arbitrary characters
+    for pre in (6, 7, 8, 61, 62, 63, 64, 70):
+        for k in (1, 2, 3):
+            for pz in (0, 1):
+                jobs.append(J("ast", "ZZ_C12_binary_str", k=k, pre=pre, pz=pz))
     jobs += [J("ast", "ZZ_C12_wrongtype", which=i) for i in range(9)]
     jobs.append(J("ast", "ZZ_C12_boolean"))
     for k in ([0, 1, 2, 3] if tier == "quick" else [0, 1, 2, 3, 4, 5]):
